@@ -96,6 +96,10 @@ type RunResult struct {
 	Evals      int64 // evaluations contributed (default 1)
 	NonTrivial bool
 	Distinct   []uint64 // hashes of distinct non-trivial cases this run contributed
+	// GroupDistinct: for enumerating checks (C07) the number of distinct
+	// non-trivial cases inside a group (stream, prior, entry); groups seen more
+	// than once are counted once (max), which is conservative.
+	GroupDistinct map[uint64]int64
 	Segs       []Seg
 	EvHash     uint64
 	Counters   map[string]int64
@@ -114,6 +118,7 @@ type Stats struct {
 	Evals       int64              `json:"evaluations"`
 	NonTrivial  int64              `json:"nontrivial"`
 	Distinct    []uint64           `json:"distinct_hashes"`
+	Groups      map[string]int64   `json:"distinct_groups,omitempty"`
 	Steps       int64              `json:"logical_steps"`
 	Counters    map[string]int64   `json:"counters"`
 	SitePairs   [][2]int           `json:"site_pairs"`
@@ -156,6 +161,15 @@ func (st *Stats) add(res *RunResult) {
 	}
 	for _, h := range res.Distinct {
 		st.distinctSet[h] = struct{}{}
+	}
+	for g, n := range res.GroupDistinct {
+		if st.Groups == nil {
+			st.Groups = map[string]int64{}
+		}
+		k := fmt.Sprintf("%016x", g)
+		if n > st.Groups[k] {
+			st.Groups[k] = n
+		}
 	}
 	for k, v := range res.Counters {
 		st.Counters[k] += v
